@@ -898,6 +898,22 @@ class C08(PropBase):
         if not cli or cli.get("rc") is None:
             return {"sig": "cli-not-run", "what": "CLI run missing: %s" % str(cli)[:200]}
         side = impl["git"] if route.startswith("git") else impl.get("fs")
+        if route == "fs-args" and case["ext"] != norm_suffix(case["ext"]):
+            # since the fix of F24 (804634a) `--input.fs.ext .txn` is normalised like the configured suffix, so the
+            # binary is not comparable with a library call that passes the dotted extension verbatim: judge it
+            # against the generator's record of the commit with the normalised extension
+            exp = self.expected(dict(case, ext=norm_suffix(case["ext"])))
+            if not exp.get("domain") or exp.get("links"):
+                return None
+            want = exp.get("descs")
+            if want:
+                if cli["rc"] != 0:
+                    return {"sig": "cli-failed", "what": "route fs-args (dotted extension): %d journal files selected, binary exits %s" % (len(exp["files"]), cli["rc"])}
+                if identity_descs(cli["identity"]) != want:
+                    return {"sig": "cli-ne-lib", "what": "route fs-args (dotted extension): binary loads %s, expected %s" % (identity_descs(cli["identity"])[:8], want[:8])}
+            elif cli["rc"] == 0:
+                return {"sig": "cli-ok-lib-not", "what": "route fs-args (dotted extension): binary succeeds where nothing (or a non-journal file) is selected"}
+            return None
         info = build_repo(case["hist"])
         cid = info["ids"][case["commit"]]
         lib_ok = side is not None and side.get("r") == "OK"
